@@ -367,6 +367,10 @@ pub fn run(thorough: bool) -> Report {
             "PRINT 1\nPRINT 2",
             "X=1\nX=2\r\nX=3",
             "X=1\nRUN",
+            // references to arrays that were never dimensioned, with more subscripts than fit
+            "PRINT Z1(0,0,0,0)",
+            "Z2(1,1,1,1,1)=1",
+            "READ Z3(0,0,0,0,0,0)",
         ];
         for (cname, setup) in &contexts {
             for line in lines {
@@ -386,6 +390,17 @@ pub fn run(thorough: bool) -> Report {
                     let c = take_counters();
                     immediate_calls += 1;
                     let prints = s.recs.iter().filter(|r| matches!(r, Rec::Print(_))).count() as u64;
+                    // what one call builds is bounded too: no statement of a few tokens may leave
+                    // more array cells behind than the language's largest array holds
+                    let cells: usize = s.it.verif_snapshot().arrays.iter().map(|a| a.cell_count).max().unwrap_or(0);
+                    if cells > 10000 {
+                        rep.add(Violation {
+                            signature: format!("immediate line {}: one call built an array of more than 10000 cells", cname),
+                            detail: format!("{:?} typed {}: call {:?} left an array of {} cells behind", line, cname, ev, cells),
+                            case: case_history(&hist, false, true),
+                        });
+                        break;
+                    }
                     if matches!(r, CallResult::Panic(_)) || c.statements > 1 + c.ifs || prints > 1 {
                         rep.add(Violation {
                             signature: format!("immediate line {}: more than one statement in one call", cname),
